@@ -220,10 +220,19 @@ def f5(ctx, rid):
         raise core.AnchorLost('append->push bodies: %d' % n)
 
 
+def f6(ctx, rid):
+    """an index dump interrupted by an I/O fault must not leave a file that is trusted: two-phase written flag + extent gate
+    (C03.I8 / C03.I5 instances)"""
+    import props.c03 as c03
+    c03.i8(ctx, rid)
+    c03.i5(ctx, rid)
+
+
 RULES = [
     Rule('C11.X3', 'no err-exit is reachable between a move-out of shared state and its hand-back', x3, 4),
     Rule('C11.L1', 'an error while handling a worker message never ends the maintenance loop (C13.L1 instances)', l1, 4),
     Rule('C11.F3', 'no Result of a fallible storage-layer call is dropped unobserved', f3, 1),
     Rule('C11.F4', 'file data is written with all-or-error primitives, or the returned byte count is compared', f4, 5),
     Rule('C11.F5', 'a record header reaches the index only on the ok edge of its append', f5, 2),
+    Rule('C11.F6', 'an index file cut short by a failed dump is never trusted: written flag set in a second phase, extent checked at open (C03.I8/I5 instances)', f6, 2),
 ]
